@@ -25,6 +25,18 @@ __all__ = [
 argcounts: dict[str, int] = {'type': 1}
 
 
+
+# attributes that are not dunders but hand out frames, code objects and their
+# namespaces (a generator's gi_frame.f_back.f_globals reaches the real builtins)
+introspection_attributes: frozenset[str] = frozenset({
+    'gi_frame', 'gi_code', 'gi_yieldfrom',
+    'cr_frame', 'cr_code', 'cr_await', 'cr_origin',
+    'ag_frame', 'ag_code', 'ag_await',
+    'f_back', 'f_globals', 'f_builtins', 'f_locals', 'f_code', 'f_trace',
+    'tb_frame', 'tb_next',
+    'co_consts', 'co_names', 'co_code',
+    'func_globals', 'func_code',
+})
 unsafe_builtins = {
     'breakpoint',  # Remote code execution and interactive shell access
     'compile',  # Running or compiling code
@@ -213,6 +225,9 @@ def _check_safe_eval_cached(
 
         if isinstance(node, ast.Attribute) and node.attr.startswith('__'):
             raise SecurityError(f"Dunder access prohibited: .{node.attr}")
+
+        if isinstance(node, ast.Attribute) and node.attr in introspection_attributes:
+            raise SecurityError(f"Introspection prohibited: .{node.attr}")
 
         if isinstance(node, ast.Name):
             if isinstance(node.ctx, ast.Load) and node.id not in context:
